@@ -281,7 +281,7 @@ fn mirrored_since_law(a: &Ymd, b: &Ymd, out: &mut Out) {
         (M::HalfTrunc, M::HalfTrunc, "halfTrunc"),
         (M::HalfEven, M::HalfEven, "halfEven"),
     ];
-    for (largest, smallest, inc, cell) in [(Unit::Day, Unit::Day, 2u32, "day/2"), (Unit::Week, Unit::Week, 1, "week/1"), (Unit::Month, Unit::Month, 1, "month/1"), (Unit::Year, Unit::Month, 2, "year..month/2"), (Unit::Year, Unit::Year, 1, "year/1")] {
+    for (largest, smallest, inc, cell) in [(Unit::Day, Unit::Day, 2u32, "day/2"), (Unit::Week, Unit::Week, 1, "week/1"), (Unit::Month, Unit::Month, 1, "month/1"), (Unit::Year, Unit::Month, 2, "year..month/2"), (Unit::Year, Unit::Year, 1, "year/1"), (Unit::Year, Unit::Month, 1, "year..month/1"), (Unit::Week, Unit::Day, 7, "week..day/7"), (Unit::Month, Unit::Day, 10, "month..day/10")] {
         for (mode, mirrored, mname) in MODES {
             let s = call(|| da.since(&db, diff(Some(largest), Some(smallest), Some(mode), Some(inc))));
             let u = call(|| da.until(&db, diff(Some(largest), Some(smallest), Some(mirrored), Some(inc))));
@@ -295,6 +295,17 @@ fn mirrored_since_law(a: &Ymd, b: &Ymd, out: &mut Out) {
                 _ => false,
             };
             out.law("since(mode) = -until(mirrored mode)", agree, attrs);
+            // a rounded difference is balanced up to the largest unit too: rounding up to a full larger unit carries
+            if let Oc::Ok(u) = &u {
+                let f = dur_fields(u);
+                let balanced = match largest {
+                    Unit::Year => f[1].abs() < 12.0,
+                    Unit::Week => f[3].abs() < 7.0 && f[0] == 0.0 && f[1] == 0.0,
+                    Unit::Month => f[0] == 0.0 && f[2] == 0.0 && f[3].abs() <= 31.0,
+                    _ => true,
+                };
+                out.law("rounded difference is balanced up to the largest unit", balanced, attrs);
+            }
         }
     }
 }
